@@ -226,6 +226,27 @@ def run(cx: Cx):
                          where=cx.where(cu2))
         else:
             cx.ok('R-PAIR', 'System.clean_up removes the system from its scheduler', where=cx.where(cu2), function=cu2.qualname)
+        # ... and nothing else of the model: registering / removing a system changes who is scheduled, not the clock, the status or
+        # the environment (a removal that also completes the model stops the systems registered in the same step from ever running)
+        from .common import STATE_FIELDS
+        allowed = {(CORE + 'SystemManager', 'systems'), (CORE + 'SystemManager', 'execution_queue')}
+        for q in (CORE + 'SystemManager.add_system', CORE + 'SystemManager.remove_system', CORE + 'System.clean_up'):
+            f1 = cx.prog.functions.get(q)
+            if f1 is None:
+                continue
+            extra = [(w, ch) for w, ch in cx.effects.trans_writes(f1) if w.loc and w.loc not in allowed and w.loc[1] in STATE_FIELDS
+                     and not (w.loc[0] == CORE + 'System' and w.loc[1] == 'model')]
+            if extra:
+                w, ch = extra[0]
+                cx.violation('R-DISC', q, 'registration-changes-the-schedule-only',
+                             f"{q} also writes {w.loc[0].rsplit('.', 1)[-1]}.{w.loc[1]} ({w.describe()}"
+                             f"{' via ' + ' -> '.join(ch) if ch else ''}): registering or removing a system must change who is scheduled and "
+                             f"nothing else of the model", where=w.where)
+            else:
+                cx.ok('R-DISC', f"{q.rsplit('.', 2)[-2]}.{f1.name} writes the registry and the queue only", where=cx.where(f1), function=q)
+        # ... for every kind of system the package ships: an override may do more (flush what it holds), but it hands the removal on
+        from .common import check_overrides_forward
+        check_overrides_forward(cx, CORE + 'System', ['clean_up'], rule='R-PAIR')
     # one execute per iteration
     for p in ps:
         per = {}
